@@ -568,6 +568,9 @@ func execLad(f []string) vlib.Res {
 		case "uclass":
 			s.qclass = 5
 		}
+		if a["qt"] != "" {
+			s.qtype = uint16(vlib.Atoi(a["qt"])) // DNSSEC-typed questions pick the cut's template differently
+		}
 		if a["ex"] == "1" {
 			for p := 0; p < 3; p++ {
 				rawSettled(s.build(markers[p], nil, nil), remoteFor(p, "tcp", false, 60000+n))
@@ -575,6 +578,9 @@ func execLad(f []string) vlib.Res {
 		}
 		seedState(map[string]string{"cut": a["cut"], "fail": strings.ReplaceAll(a["fail"], "-", ""), "qc": fmt.Sprint(s.qclass)}, names, s.qtype, cd)
 		rung := func(r reply, calls int64) string {
+			if calls == 0 && r.m != nil && r.m.Rcode == dns.RcodeNameError {
+				return fmt.Sprintf("cut:%d", len(r.m.Ns)) // which proof template was served
+			}
 			switch {
 			case calls > 0:
 				return "miss"
